@@ -72,11 +72,17 @@ Spine(v, hp) == SpineR(v, hp, <<>>, Len(hp) + 1)
 \* Identity between two values as an implementation can observe it with eq? and cdr: pj is the very object pi,
 \* or (lists) the very pair reached from pi by following cdrs.  Empty vectors and strings are excluded (R7RS does
 \* not say whether two of them are the same object).
+SameObj(a, b) == a.t = b.t /\ a.t \in {"pair", "vec", "str"} /\ a.v = b.v
 ShareRel(pi, pj, hp) ==
-  CASE pj.t = "pair" -> pi.t = "pair" /\ \E q \in 1..Len(Spine(pi, hp).s) : Spine(pi, hp).s[q].v = pj.v
-    [] pj.t = "vec" -> pi.t = "vec" /\ pi.v = pj.v /\ Len(hp[pj.v].e) > 0
-    [] pj.t = "str" -> pi.t = "str" /\ pi.v = pj.v /\ Len(hp[pj.v].c) > 0
-    [] OTHER -> FALSE
+  /\ CASE pj.t = "pair" -> TRUE
+        [] pj.t = "vec" -> Len(hp[pj.v].e) > 0
+        [] pj.t = "str" -> Len(hp[pj.v].c) > 0
+        [] OTHER -> FALSE
+  /\ \/ SameObj(pi, pj)
+     \/ /\ pi.t = "pair"
+        /\ LET sp == Spine(pi, hp) IN
+           \/ \E q \in 1..Len(sp.s) : SameObj(sp.s[q], pj)
+           \/ SameObj(sp.tl, pj)          \* the last cdr of an improper list
 ShareMatrix(pl, n, hp) == [i \in 1..n |-> [j \in 1..n |-> ShareRel(pl[i], pl[j], hp)]]
 
 -----------------------------------------------------------------------------
